@@ -2,6 +2,7 @@
 import JS.Pointer
 import JS.Spec.Pointer
 import Mathlib.Tactic.IntervalCases
+import Mathlib.Data.List.Induction
 namespace JS
 namespace PointerProofs
 
@@ -125,6 +126,524 @@ theorem fragmentTokens_of_unquote (fragment : Str) (toks : List Str)
     congr 1
     have : (unescapeToken ∘ Spec.escapeToken) = id := funext unescape_escape
     rw [this, List.map_id]
+
+/-! ### (d) array indices: `arrayIndex?` recognises exactly the canonical decimals -/
+
+theorem char_le_iff (a b : Char) : a ≤ b ↔ a.toNat ≤ b.toNat := by
+  rw [Char.le_def, UInt32.le_iff_toNat_le]; rfl
+
+theorem digitChar_facts (d : Nat) (h : d < 10) :
+    isDigit (Nat.digitChar d) = true ∧ (Nat.digitChar d).toNat - '0'.toNat = d
+      ∧ (0 < d → '1' ≤ Nat.digitChar d ∧ Nat.digitChar d ≤ '9') := by
+  interval_cases d <;> decide
+
+theorem digit_char_eq (c : Char) (h : isDigit c = true) :
+    Nat.digitChar (c.toNat - '0'.toNat) = c ∧ c.toNat - '0'.toNat < 10 := by
+  simp only [isDigit, Bool.and_eq_true, decide_eq_true_eq, char_le_iff] at h
+  have h0 : '0'.toNat = 48 := by decide
+  have h9 : '9'.toNat = 57 := by decide
+  rw [h0, h9] at h
+  rw [h0]
+  obtain ⟨k, hk⟩ : ∃ k, c.toNat = k := ⟨_, rfl⟩
+  rw [hk] at h ⊢
+  have : c = Char.ofNat k := by rw [← hk]; simp
+  subst this
+  obtain ⟨h1, h2⟩ := h
+  interval_cases k <;> decide
+
+theorem digitsVal_snoc (s : Str) (c : Char) :
+    digitsVal (s ++ [c]) = digitsVal s * 10 + (c.toNat - '0'.toNat) := by
+  simp [digitsVal, List.foldl_append]
+
+/-- properties of the decimal rendering -/
+theorem toDigits_props (n : Nat) :
+    (Nat.toDigits 10 n).all isDigit = true ∧ digitsVal (Nat.toDigits 10 n) = n ∧
+      (0 < n → ∃ c rest, Nat.toDigits 10 n = c :: rest ∧ '1' ≤ c ∧ c ≤ '9') := by
+  induction n using Nat.strongRecOn with
+  | _ n ih =>
+    rw [Nat.toDigits_eq_if (by decide)]
+    by_cases hn : n < 10
+    · rw [if_pos hn]
+      obtain ⟨f1, f2, f3⟩ := digitChar_facts n hn
+      refine ⟨by simp [f1], by simpa [digitsVal] using f2, fun hp => ⟨_, _, rfl, f3 hp⟩⟩
+    · rw [if_neg hn]
+      obtain ⟨i1, i2, i3⟩ := ih (n / 10) (by omega)
+      obtain ⟨f1, f2, _⟩ := digitChar_facts (n % 10) (by omega)
+      refine ⟨by simp [i1, f1], ?_, fun _ => ?_⟩
+      · rw [digitsVal_snoc, i2, f2]; omega
+      · obtain ⟨c, rest, e, hc⟩ := i3 (by omega)
+        exact ⟨c, rest ++ [Nat.digitChar (n % 10)], by rw [e]; rfl, hc⟩
+
+theorem arrayIndex_cons (c : Char) (rest : Str) (h1 : '1' ≤ c) :
+    arrayIndex? (c :: rest) =
+      if '1' ≤ c ∧ c ≤ '9' ∧ rest.all isDigit then some (digitsVal (c :: rest)) else none := by
+  have hc : c ≠ '0' := by
+    rintro rfl; exact absurd h1 (by decide)
+  unfold arrayIndex?
+  split
+  · simp_all
+  · simp_all
+  · rename_i c' rest' heq; cases heq; rfl
+
+theorem arrayIndex_decimal (n : Nat) : arrayIndex? (Spec.decimal n) = some n := by
+  unfold Spec.decimal
+  by_cases hn : n = 0
+  · subst hn; decide
+  · obtain ⟨p1, p2, p3⟩ := toDigits_props n
+    obtain ⟨c, rest, e, hc1, hc2⟩ := p3 (by omega)
+    rw [e] at p1 p2 ⊢
+    rw [arrayIndex_cons c rest hc1, p2]
+    simp only [List.all_cons, Bool.and_eq_true] at p1
+    rw [if_pos ⟨hc1, hc2, p1.2⟩]
+
+/-- a canonical digit string is the rendering of its value -/
+theorem toDigits_digitsVal (s : Str) :
+    s.all isDigit = true → ∀ c rest, s = c :: rest → '1' ≤ c →
+      Nat.toDigits 10 (digitsVal s) = s ∧ 0 < digitsVal s := by
+  induction s using List.reverseRecOn with
+  | nil => intro _ c rest h; cases h
+  | append_singleton s d ih =>
+    intro hall c rest hs hc
+    simp only [List.all_append, List.all_cons, List.all_nil, Bool.and_true, Bool.and_eq_true] at hall
+    obtain ⟨g1, g2⟩ := digit_char_eq d hall.2
+    rw [digitsVal_snoc]
+    cases s with
+    | nil =>
+      simp only [List.nil_append, List.cons.injEq] at hs
+      obtain ⟨rfl, _⟩ := hs
+      have : 0 < d.toNat - '0'.toNat := by
+        rw [char_le_iff] at hc
+        have : '1'.toNat = 49 := by decide
+        have : '0'.toNat = 48 := by decide
+        omega
+      refine ⟨?_, by omega⟩
+      simp only [digitsVal, List.foldl_nil, Nat.zero_mul, Nat.zero_add, List.nil_append]
+      rw [Nat.toDigits_of_lt_base g2, g1]
+    | cons x s' =>
+      simp only [List.cons_append, List.cons.injEq] at hs
+      obtain ⟨rfl, _⟩ := hs
+      obtain ⟨i1, i2⟩ := ih hall.1 x s' rfl hc
+      refine ⟨?_, by omega⟩
+      rw [Nat.mul_comm, ← Nat.toDigits_append_toDigits (by decide) i2 g2, i1,
+        Nat.toDigits_of_lt_base g2, g1]
+
+theorem arrayIndex_eq_some (s : Str) (n : Nat) (h : arrayIndex? s = some n) : s = Spec.decimal n := by
+  unfold Spec.decimal
+  unfold arrayIndex? at h
+  split at h
+  · cases h
+  · cases h; decide
+  · rename_i c rest _
+    split at h
+    · rename_i hc
+      cases h
+      have hd : isDigit c = true := by
+        have h1 := hc.1
+        have h2 := hc.2.1
+        simp only [isDigit, Bool.and_eq_true, decide_eq_true_eq, char_le_iff] at h1 h2 ⊢
+        have : '1'.toNat = 49 := by decide
+        have : '0'.toNat = 48 := by decide
+        omega
+      exact ((toDigits_digitsVal (c :: rest) (by simp [hd, hc.2.2]) c rest rfl hc.1).1).symm
+    · cases h
+
+theorem arrayIndex_iff (s : Str) (n : Nat) : arrayIndex? s = some n ↔ s = Spec.decimal n :=
+  ⟨arrayIndex_eq_some s n, fun h => h ▸ arrayIndex_decimal n⟩
+
+theorem find_range_eq (k n : Nat) :
+    (List.range k).find? (fun m => decide (m = n)) = if n < k then some n else none := by
+  induction k with
+  | zero => simp
+  | succ k ih =>
+    rw [List.range_succ, List.find?_append, ih]
+    by_cases h : n < k
+    · simp [h, Nat.lt_succ_of_lt h]
+    · by_cases h' : n = k
+      · subst h'; simp
+      · have : ¬ n < k + 1 := by omega
+        simp [h, this, Ne.symm h']
+
+theorem spec_arr_step (xs : List Json) (tok : Str) :
+    Spec.ptrStep (.arr xs) tok = match arrayIndex? tok with
+      | some n => xs[n]?
+      | none => none := by
+  unfold Spec.ptrStep
+  cases h : arrayIndex? tok with
+  | none =>
+    have : (List.range xs.length).find? (fun n => decide (Spec.decimal n = tok)) = none := by
+      rw [List.find?_eq_none]
+      intro n _
+      simp only [decide_eq_true_eq]
+      intro e
+      rw [← e, arrayIndex_decimal] at h
+      cases h
+    simp [this]
+  | some n =>
+    have hf : (fun m => decide (Spec.decimal m = tok)) = (fun m => decide (m = n)) := by
+      funext m
+      have : Spec.decimal m = tok ↔ m = n := by
+        constructor
+        · intro e
+          rw [← e, arrayIndex_decimal] at h
+          exact Option.some.inj h
+        · intro e
+          rw [e]; exact (arrayIndex_eq_some tok n h).symm
+      simp [this]
+    simp only [hf, find_range_eq]
+    by_cases hn : n < xs.length
+    · simp [hn]
+    · simp [hn]
+
+theorem ptrStep_eq_spec (doc : Json) (tok : Str) : ptrStep doc tok = Spec.ptrStep doc tok := by
+  cases doc with
+  | arr xs => rw [spec_arr_step]; rfl
+  | _ => rfl
+
+theorem ptrWalk_eq_spec (doc : Json) (toks : List Str) : ptrWalk doc toks = Spec.ptrEval doc toks := by
+  induction toks generalizing doc with
+  | nil => rfl
+  | cons t ts ih =>
+    simp only [ptrWalk, Spec.ptrEval, ptrStep_eq_spec]
+    cases Spec.ptrStep doc t with
+    | none => rfl
+    | some d => simp [ih]
+
+/-! ### (a) `unquote` inverts `pctEncode` -/
+
+theorem hex_facts (n : Nat) (h : n < 16) :
+    hexVal (Spec.hexDigit n) = some n ∧ isAscii (Spec.hexDigit n) = true ∧ Spec.hexDigit n ≠ '%' := by
+  interval_cases n <;> decide
+
+theorem mk_toArray_eq (l : List UInt8) : ByteArray.mk l.toArray = l.toByteArray := by
+  rw [← List.data_toByteArray]
+
+theorem decodeUtf8_encode (t : Str) : decodeUtf8 (t.flatMap String.utf8EncodeChar) = t := by
+  unfold decodeUtf8
+  rw [mk_toArray_eq]
+  have := List.utf8Decode?_utf8Encode (l := t)
+  rw [List.utf8Encode] at this
+  rw [this]
+
+/-- the encoding of one character -/
+def enc (keep : Char → Bool) (c : Char) : Str :=
+  if keep c && c != '%' then [c] else (String.utf8EncodeChar c).flatMap Spec.pctByte
+
+theorem pctEncode_nil (keep : Char → Bool) : Spec.pctEncode keep [] = [] := rfl
+
+theorem pctEncode_cons (keep : Char → Bool) (c : Char) (s : Str) :
+    Spec.pctEncode keep (c :: s) = enc keep c ++ Spec.pctEncode keep s := by
+  simp [Spec.pctEncode, enc]
+
+/-- a kept non-ASCII character: the only characters whose encoding is not ASCII -/
+def isN (keep : Char → Bool) (c : Char) : Bool := (keep c && c != '%') && !isAscii c
+
+theorem enc_of_isN (keep : Char → Bool) (c : Char) (h : isN keep c = true) :
+    enc keep c = [c] ∧ isAscii c = false := by
+  simp only [isN, Bool.and_eq_true, Bool.not_eq_true'] at h
+  refine ⟨?_, h.2⟩
+  simp only [enc]
+  rw [if_pos (by simpa using h.1)]
+
+theorem pctByte_eq (b : UInt8) :
+    Spec.pctByte b = ['%', Spec.hexDigit (b.toNat / 16), Spec.hexDigit (b.toNat % 16)] := rfl
+
+theorem flatMap_pctByte_ascii (bs : List UInt8) : ∀ c ∈ bs.flatMap Spec.pctByte, isAscii c = true := by
+  intro c hc
+  simp only [List.mem_flatMap, pctByte_eq, List.mem_cons, List.not_mem_nil, or_false] at hc
+  obtain ⟨b, _, hb⟩ := hc
+  have hlt : b.toNat < 256 := b.toNat_lt
+  rcases hb with rfl | rfl | rfl
+  · decide
+  · exact (hex_facts _ (by omega)).2.1
+  · exact (hex_facts _ (by omega)).2.1
+
+theorem utf8EncodeChar_cons (c : Char) : ∃ b bs, String.utf8EncodeChar c = b :: bs := by
+  cases h : String.utf8EncodeChar c with
+  | nil => exact absurd h String.utf8EncodeChar_ne_nil
+  | cons b bs => exact ⟨b, bs, rfl⟩
+
+/-- the encoding of a character that is not a kept non-ASCII character is a non-empty ASCII string -/
+theorem enc_ascii (keep : Char → Bool) (c : Char) (h : isN keep c = false) :
+    enc keep c ≠ [] ∧ ∀ x ∈ enc keep c, isAscii x = true := by
+  unfold enc
+  by_cases hk : (keep c && c != '%') = true
+  · rw [if_pos hk]
+    simp only [isN, hk, Bool.true_and, Bool.not_eq_false'] at h
+    simp [h]
+  · rw [if_neg hk]
+    refine ⟨?_, flatMap_pctByte_ascii _⟩
+    obtain ⟨b, bs, e⟩ := utf8EncodeChar_cons c
+    rw [e]; simp [pctByte_eq]
+
+/-! #### percent-decoding to bytes -/
+
+theorem unquoteBytes_cons_ne (c : Char) (rest : Str) (h : c ≠ '%') :
+    unquoteBytes (c :: rest) = byteOf c :: unquoteBytes rest := by
+  match rest with
+  | [] => simp [unquoteBytes]
+  | [d] => simp [unquoteBytes]
+  | d :: e :: rest' => simp [unquoteBytes, h]
+
+theorem unquoteBytes_pctByte (b : UInt8) (rest : Str) :
+    unquoteBytes (Spec.pctByte b ++ rest) = b :: unquoteBytes rest := by
+  have hlt : b.toNat < 256 := b.toNat_lt
+  have h1 := (hex_facts (b.toNat / 16) (by omega)).1
+  have h2 := (hex_facts (b.toNat % 16) (by omega)).1
+  rw [pctByte_eq]
+  simp only [List.cons_append, List.nil_append, unquoteBytes, if_true, h1, h2]
+  congr 1
+  have : b.toNat / 16 * 16 + b.toNat % 16 = b.toNat := by omega
+  rw [this, UInt8.ofNat_toNat]
+
+theorem unquoteBytes_flatMap_pctByte (bs : List UInt8) (rest : Str) :
+    unquoteBytes (bs.flatMap Spec.pctByte ++ rest) = bs ++ unquoteBytes rest := by
+  induction bs with
+  | nil => simp
+  | cons b bs ih =>
+    rw [List.flatMap_cons, List.append_assoc, unquoteBytes_pctByte, ih]; rfl
+
+theorem utf8EncodeChar_ascii (c : Char) (h : isAscii c = true) :
+    String.utf8EncodeChar c = [byteOf c] := by
+  simp only [isAscii, decide_eq_true_eq, Char.toNat] at h
+  simp only [String.utf8EncodeChar, byteOf, Char.toNat]
+  rw [if_pos (by omega)]
+
+theorem unquoteBytes_enc (keep : Char → Bool) (c : Char) (h : isN keep c = false) (rest : Str) :
+    unquoteBytes (enc keep c ++ rest) = String.utf8EncodeChar c ++ unquoteBytes rest := by
+  unfold enc
+  by_cases hk : (keep c && c != '%') = true
+  · rw [if_pos hk]
+    simp only [isN, hk, Bool.true_and, Bool.not_eq_false'] at h
+    simp only [Bool.and_eq_true, bne_iff_ne, ne_eq] at hk
+    rw [utf8EncodeChar_ascii c h]
+    exact unquoteBytes_cons_ne c rest hk.2
+  · rw [if_neg hk, unquoteBytes_flatMap_pctByte]
+
+theorem unquoteBytes_pctEncode (keep : Char → Bool) (t : Str) (hA : ∀ c ∈ t, isN keep c = false) :
+    unquoteBytes (Spec.pctEncode keep t) = t.flatMap String.utf8EncodeChar := by
+  induction t with
+  | nil => simp [pctEncode_nil, unquoteBytes]
+  | cons c t ih =>
+    rw [pctEncode_cons, unquoteBytes_enc keep c (hA c (by simp)), ih (fun x hx => hA x (by simp [hx]))]
+    rfl
+
+/-- an all-ASCII-encoded block decodes to its source -/
+theorem decode_block (keep : Char → Bool) (t : Str) (hA : ∀ c ∈ t, isN keep c = false) :
+    decodeUtf8 (unquoteBytes (Spec.pctEncode keep t)) = t := by
+  rw [unquoteBytes_pctEncode keep t hA, decodeUtf8_encode]
+
+/-- what `unquote` does with one run -/
+def runDec : Bool × Str → Str := fun (a, run) => if a then decodeUtf8 (unquoteBytes run) else run
+
+theorem asciiRuns_cons_nonascii (c : Char) (h : isAscii c = false) (l : Str) :
+    ∃ run more, asciiRuns (c :: l) = (false, run) :: more ∧
+      (asciiRuns (c :: l)).flatMap runDec = c :: (asciiRuns l).flatMap runDec := by
+  rw [asciiRuns]
+  cases hl : asciiRuns l with
+  | nil => exact ⟨[c], [], by simp [h], by simp [h, runDec]⟩
+  | cons p more =>
+    obtain ⟨a, run⟩ := p
+    cases a with
+    | false => exact ⟨c :: run, more, by simp [h], by simp [h, runDec]⟩
+    | true => exact ⟨[c], (true, run) :: more, by simp [h], by simp [h, runDec]⟩
+
+/-- prepend an ASCII block to a run list -/
+def pushRun (w : Str) : List (Bool × Str) → List (Bool × Str)
+  | [] => [(true, w)]
+  | (true, run) :: more => (true, w ++ run) :: more
+  | (false, run) :: more => (true, w) :: (false, run) :: more
+
+theorem asciiRuns_cons_ascii (c : Char) (h : isAscii c = true) (l : Str) :
+    asciiRuns (c :: l) = pushRun [c] (asciiRuns l) := by
+  rw [asciiRuns]
+  cases hl : asciiRuns l with
+  | nil => simp [h, pushRun]
+  | cons p more =>
+    obtain ⟨a, run⟩ := p
+    cases a <;> simp [h, pushRun]
+
+theorem pushRun_pushRun (w w' : Str) (rs : List (Bool × Str)) :
+    pushRun w (pushRun w' rs) = pushRun (w ++ w') rs := by
+  match rs with
+  | [] => simp [pushRun]
+  | (true, run) :: more => simp [pushRun]
+  | (false, run) :: more => simp [pushRun]
+
+theorem asciiRuns_ascii_append (w : Str) (hw : w ≠ []) (hall : ∀ c ∈ w, isAscii c = true) (l : Str) :
+    asciiRuns (w ++ l) = pushRun w (asciiRuns l) := by
+  induction w with
+  | nil => exact absurd rfl hw
+  | cons c w ih =>
+    rw [List.cons_append, asciiRuns_cons_ascii c (hall c (by simp))]
+    by_cases hw' : w = []
+    · subst hw'; rfl
+    · rw [ih hw' (fun x hx => hall x (by simp [hx])), pushRun_pushRun]; rfl
+
+/-- invariant relating a source string and the run list of its encoding -/
+def Inv (keep : Char → Bool) (s : Str) : List (Bool × Str) → Prop
+  | [] => s = []
+  | (false, run) :: more => ((false, run) :: more).flatMap runDec = s
+  | (true, run) :: more => ∃ s1 s2, s = s1 ++ s2 ∧ (∀ c ∈ s1, isN keep c = false) ∧
+      run = Spec.pctEncode keep s1 ∧ more.flatMap runDec = s2
+
+theorem Inv_flat (keep : Char → Bool) (s : Str) (rs : List (Bool × Str)) (h : Inv keep s rs) :
+    rs.flatMap runDec = s := by
+  match rs, h with
+  | [], h => simpa [Inv] using h.symm
+  | (false, run) :: more, h => exact h
+  | (true, run) :: more, h =>
+    obtain ⟨s1, s2, rfl, hA, rfl, rfl⟩ := h
+    simp [runDec, decode_block keep s1 hA]
+
+theorem inv_asciiRuns (keep : Char → Bool) (s : Str) : Inv keep s (asciiRuns (Spec.pctEncode keep s)) := by
+  induction s with
+  | nil => simp [pctEncode_nil, asciiRuns, Inv]
+  | cons c s ih =>
+    rw [pctEncode_cons]
+    cases hN : isN keep c with
+    | true =>
+      obtain ⟨e, hna⟩ := enc_of_isN keep c hN
+      rw [e, List.singleton_append]
+      obtain ⟨run, more, h1, h2⟩ := asciiRuns_cons_nonascii c hna (Spec.pctEncode keep s)
+      rw [Inv_flat keep s _ ih] at h2
+      rw [h1] at h2 ⊢
+      exact h2
+    | false =>
+      obtain ⟨hne, hall⟩ := enc_ascii keep c hN
+      rw [asciiRuns_ascii_append _ hne hall]
+      have hone : Spec.pctEncode keep [c] = enc keep c := by
+        rw [pctEncode_cons, pctEncode_nil, List.append_nil]
+      have hc : ∀ x ∈ [c], isN keep x = false := by simp [hN]
+      match hrs : asciiRuns (Spec.pctEncode keep s), ih with
+      | [], ih =>
+        simp only [Inv] at ih
+        subst ih
+        exact ⟨[c], [], rfl, hc, hone.symm, rfl⟩
+      | (false, run) :: more, ih =>
+        exact ⟨[c], s, rfl, hc, hone.symm, ih⟩
+      | (true, run) :: more, ih =>
+        obtain ⟨s1, s2, rfl, hA, rfl, rfl⟩ := ih
+        refine ⟨c :: s1, _, rfl, ?_, ?_, rfl⟩
+        · intro x hx
+          rcases List.mem_cons.mp hx with rfl | hx
+          · exact hN
+          · exact hA x hx
+        · rw [pctEncode_cons]
+
+
+theorem pctEncode_no_pct (keep : Char → Bool) (s : Str) (h : '%' ∉ Spec.pctEncode keep s) :
+    Spec.pctEncode keep s = s := by
+  induction s with
+  | nil => rfl
+  | cons c s ih =>
+    rw [pctEncode_cons] at h ⊢
+    rw [List.mem_append, not_or] at h
+    rw [ih h.2]
+    have : enc keep c = [c] := by
+      unfold enc at h ⊢
+      by_cases hk : (keep c && c != '%') = true
+      · rw [if_pos hk]
+      · rw [if_neg hk] at h
+        obtain ⟨b, bs, e⟩ := utf8EncodeChar_cons c
+        rw [e] at h
+        exact absurd (by simp [pctByte_eq]) h.1
+    rw [this]; rfl
+
+theorem unquote_pctEncode (keep : Char → Bool) (s : Str) : unquote (Spec.pctEncode keep s) = s := by
+  unfold unquote
+  split
+  · exact Inv_flat keep s _ (inv_asciiRuns keep s)
+  · rename_i h
+    exact pctEncode_no_pct keep s (by simpa using h)
+
+/-! ### the main theorem -/
+
+theorem fragmentTokens_fragmentOf (keep : Char → Bool) (toks : List Str) :
+    fragmentTokens (Spec.fragmentOf keep toks) = toks :=
+  fragmentTokens_of_unquote _ _ (unquote_pctEncode keep _)
+
+theorem resolve_eq_spec (keep : Char → Bool) (doc : Json) (toks : List Str) :
+    resolveFragment doc (Spec.fragmentOf keep toks) = Spec.ptrEval doc toks := by
+  unfold resolveFragment
+  rw [fragmentTokens_fragmentOf, ptrWalk_eq_spec]
+
+/-! ### consequences in terms of the specification -/
+
+theorem spec_arr_step_decimal (xs : List Json) (n : Nat) :
+    Spec.ptrStep (.arr xs) (Spec.decimal n) = xs[n]? := by
+  rw [spec_arr_step, arrayIndex_decimal]
+
+theorem ptrEval_of_ptrGet (doc : Json) (path : List PathElem) (v : Json)
+    (h : Spec.ptrGet doc path = some v) : Spec.ptrEval doc (path.map Spec.tokenOf) = some v := by
+  induction path generalizing doc with
+  | nil => simpa [Spec.ptrGet, Spec.ptrEval] using h
+  | cons p ps ih =>
+    cases p with
+    | key k =>
+      cases doc with
+      | obj kvs =>
+        simp only [Spec.ptrGet] at h
+        simp only [List.map_cons, Spec.ptrEval, Spec.tokenOf, Spec.ptrStep]
+        cases hl : Json.lookup k kvs with
+        | none => rw [hl] at h; cases h
+        | some d => rw [hl] at h; exact ih d h
+      | _ => simp [Spec.ptrGet] at h
+    | idx n =>
+      cases doc with
+      | arr xs =>
+        simp only [Spec.ptrGet] at h
+        simp only [List.map_cons, Spec.ptrEval, Spec.tokenOf, spec_arr_step_decimal]
+        cases hl : xs[n]? with
+        | none => rw [hl] at h; cases h
+        | some d => rw [hl] at h; exact ih d h
+      | _ => simp [Spec.ptrGet] at h
+
+theorem ptrEval_append (doc : Json) (a b : List Str) :
+    Spec.ptrEval doc (a ++ b) = (Spec.ptrEval doc a).bind (Spec.ptrEval · b) := by
+  induction a generalizing doc with
+  | nil => rfl
+  | cons t ts ih =>
+    simp only [List.cons_append, Spec.ptrEval]
+    cases Spec.ptrStep doc t with
+    | none => rfl
+    | some d => exact ih d
+
+theorem ptrEval_bad (doc : Json) (pre : List Str) (tok : Str) (post : List Str) (d : Json)
+    (hpre : Spec.ptrEval doc pre = some d) (hbad : Spec.ptrStep d tok = none) :
+    Spec.ptrEval doc (pre ++ tok :: post) = none := by
+  rw [ptrEval_append, hpre]
+  simp [Spec.ptrEval, hbad]
+
+theorem array_token_spec (xs : List Json) (tok : Str) (v : Json) :
+    Spec.ptrStep (.arr xs) tok = some v ↔
+      ∃ n, n < xs.length ∧ tok = Spec.decimal n ∧ xs[n]? = some v := by
+  rw [spec_arr_step]
+  cases h : arrayIndex? tok with
+  | none =>
+    constructor
+    · intro h'; cases h'
+    · rintro ⟨n, _, rfl, _⟩
+      rw [arrayIndex_decimal] at h; cases h
+  | some n =>
+    have e := arrayIndex_eq_some tok n h
+    show xs[n]? = some v ↔ _
+    constructor
+    · intro h'
+      refine ⟨n, ?_, e, h'⟩
+      by_contra hn
+      rw [List.getElem?_eq_none (l := xs) (i := n) (by omega)] at h'
+      cases h'
+    · rintro ⟨m, _, rfl, hv⟩
+      rw [arrayIndex_decimal] at h
+      cases h
+      exact hv
+
+theorem scalar_token_spec (doc : Json) (tok : Str) (h : doc.isObj = false) (h' : doc.isArr = false) :
+    Spec.ptrStep doc tok = none := by
+  cases doc <;> simp_all [Json.isObj, Json.isArr, Spec.ptrStep]
+
+theorem empty_fragment (doc : Json) : resolveFragment doc [] = some doc := by
+  rfl
 
 end PointerProofs
 end JS
